@@ -1,4 +1,5 @@
 CONSTANTS Conns <- C2
+  Dpid <- DpidId
   I = 2
   TO = 1
   Late = 0
@@ -17,5 +18,6 @@ PROPERTY SilentDisconnected
 PROPERTY ResponsiveNeverDisconnected
 PROPERTY EchoOnlyIfUp
 PROPERTY TicksSpaced
+PROPERTY OrphanNeverProbed
 PROPERTY KeepaliveStaysOn
 CHECK_DEADLOCK FALSE
